@@ -65,6 +65,7 @@ def main():
     ap.add_argument("--name")
     ap.add_argument("--cxxstd", help="language standard the demonstration needs (default c++17)")
     ap.add_argument("--demo-flag", action="append", default=[], help="extra compiler flag the demonstration needs (e.g. -DNDEBUG)")
+    ap.add_argument("--check-prop", help="run this property's check instead of the seed's own (a seed whose configuration matrix lives in another property's check, e.g. C01 seeds that need an F16C build -> C02)")
     ap.add_argument("--demo-build", help="shell command building the demonstration; placeholders {tree} {src} {cfg} {demo} {out} {demodir}")
     a = ap.parse_args()
     DEMO_BUILD[0] = a.demo_build
@@ -156,13 +157,15 @@ def main():
                 env["VERIF_EVIDENCE_DIR"] = os.path.join(scratch, "evidence")
                 env["VERIF_REPLAY_DIR"] = os.path.join(scratch, "replays")
                 t0 = time.time()
-                r = subprocess.run([sys.executable, os.path.join(HERE, "run.py"), a.prop, "--tier", tier], stdout=subprocess.PIPE, stderr=subprocess.PIPE, text=True, env=env, cwd=VERIF)
+                r = subprocess.run([sys.executable, os.path.join(HERE, "run.py"), a.check_prop or a.prop, "--tier", tier], stdout=subprocess.PIPE, stderr=subprocess.PIPE, text=True, env=env, cwd=VERIF)
                 lines = r.stdout.splitlines()
                 viol = [i for i, l in enumerate(lines) if l.startswith("VIOLATION")]
                 status = "CAUGHT" if (r.returncode == 1 and viol) else ("MISSED" if r.returncode == 0 else "ERROR(rc=%d)" % r.returncode)
                 detail = lines[viol[0] + 1][:400] if viol and viol[0] + 1 < len(lines) else (r.stdout + r.stderr)[-400:] if status.startswith("ERROR") else ""
                 meta["steps"]["check_%s" % tier] = dict(status=status, wall_s=round(time.time() - t0, 1), detail=detail)
-                print("CHECK %s tier=%s: %s %s" % (a.prop, tier, status, detail[:300]))
+                if a.check_prop:
+                    meta["check_prop"] = a.check_prop
+                print("CHECK %s tier=%s: %s %s" % (a.check_prop or a.prop, tier, status, detail[:300]))
                 if status == "CAUGHT":
                     break
         dst = os.path.join(VERIF, "seeded", "%s-%s" % (a.prop, k))
